@@ -1060,6 +1060,15 @@ impl SolarDay {
       term = term.next(-1);
       day = term.get_julian_day().get_solar_day();
     }
+    loop {
+      let next_term: SolarTerm = term.next(1);
+      let next_day: SolarDay = next_term.get_julian_day().get_solar_day();
+      if self.is_before(next_day) {
+        break;
+      }
+      term = next_term;
+      day = next_day;
+    }
     SolarTermDay::new(term, self.subtract(day) as usize)
   }
 
@@ -1559,6 +1568,13 @@ impl SolarTime {
     let mut term: SolarTerm = SolarTerm::from_index(y, i as isize);
     while self.is_before(term.get_julian_day().get_solar_time()) {
       term = term.next(-1);
+    }
+    loop {
+      let next_term: SolarTerm = term.next(1);
+      if self.is_before(next_term.get_julian_day().get_solar_time()) {
+        break;
+      }
+      term = next_term;
     }
     term
   }
